@@ -119,6 +119,14 @@ def step (st : St) (args : List String) : St × String :=
       | "addr" :: _ => (st, "bad-op")
       | [] => (st, "bad-op")
       | _ =>
+        -- the harness refuses a transaction that pays an address name nobody ever issued
+        let unknownOut : Bool := match rest with
+          | ["tx", _, _, _, outs] =>
+            (Led.parseList outs).any (fun o =>
+              let a := (o.splitOn ":").headD ""
+              a ≠ "raw" && !a.startsWith "X" && !(st.ever.any (fun e => e.2 = a)))
+          | _ => false
+        if unknownOut then (st, "err") else
         let (l, o) := Led.step x.led rest
         (setInst st i { x with led := l }, o)
   | [op, is] =>
